@@ -1,5 +1,5 @@
 import VOPyVerif.Proofs.AccuracyRegions
-import VOPyVerif.Proofs.IntegrationRect
+import VOPyVerif.Proofs.IntegrationReal
 /-!
 # C05 — VOGP / ε-PAL keep ε-isolated optima; `P` is internally non-ε-dominated
 
@@ -300,5 +300,129 @@ example :
   have := Core.vogpPremise_spec (fun b x => decide (b.l.length = 2) && b.mem x) 3 _ _ _ exBoxes exMu 2
     (by decide +kernel) r hr i hi
   simpa using this
+
+/-! ## real true values -/
+
+/-- **C05 on the executable core with real true values.**  `vogp_rect_end_to_end_slack` for true values
+that are arbitrary real vectors: if the true value of every living design lies in its displayed
+rectangle in every round and `S = ∅` after round `T`, every design that no other design matches up to
+the slack (`¬ (μ_j + s ≽ μ_i)` for all `j ≠ i`) is in `P`, and no member of `P` dominates another by
+more than the slack — over `ℝ`, with the real pessimistic test inside the core. -/
+theorem vogp_rect_end_to_end_real {m N : ℕ} (W : Fin N → Fin m → ℚ) (hN : 0 < N) (slack : Vec)
+    (s : Fin m → ℚ) (hs : Covered.expandSlack m slack = some (toVec s)) (K : ℕ) (mu : ℕ → Fin m → ℝ)
+    (l u : ℕ → ℕ → Fin m → ℚ) (T : ℕ)
+    (hvalid : ∀ r, r < T → ∀ i,
+      (i ∈ (Core.vogpRectCore (toMat W) slack K (fun r i => ⟨toVec (l r i), toVec (u r i)⟩) r).1 ∨
+        i ∈ (Core.vogpRectCore (toMat W) slack K (fun r i => ⟨toVec (l r i), toVec (u r i)⟩) r).2) →
+      ∀ d, (l r i d : ℝ) ≤ mu i d ∧ mu i d ≤ (u r i d : ℝ))
+    (hfinal : (Core.vogpRectCore (toMat W) slack K (fun r i => ⟨toVec (l r i), toVec (u r i)⟩) T).1 = []) :
+    (∀ i, i < K →
+      (∀ j, j < K → j ≠ i → ¬ ∀ n, 0 ≤ ∑ d, (W n d : ℝ) * (mu j d + (s d : ℝ) - mu i d)) →
+      i ∈ (Core.vogpRectCore (toMat W) slack K (fun r i => ⟨toVec (l r i), toVec (u r i)⟩) T).2) ∧
+    (∀ i ∈ (Core.vogpRectCore (toMat W) slack K (fun r i => ⟨toVec (l r i), toVec (u r i)⟩) T).2,
+      ∀ j ∈ (Core.vogpRectCore (toMat W) slack K (fun r i => ⟨toVec (l r i), toVec (u r i)⟩) T).2,
+        j ≠ i → ¬ ∀ n, 0 ≤ ∑ d, (W n d : ℝ) * (mu j d - mu i d - (s d : ℝ))) := by
+  have h := vogp_run_inv (K := K)
+    (near := fun j i => ∀ n, 0 ≤ ∑ d, (W n d : ℝ) * (mu j d + (s d : ℝ) - mu i d))
+    (sd := fun j i => ∀ n, 0 ≤ ∑ d, (W n d : ℝ) * (mu j d - mu i d - (s d : ℝ)))
+    (fun k => Core.relOf (Core.rectDom (toMat W) slack) (fun i => ⟨toVec (l k i), toVec (u k i)⟩))
+    (fun k => Core.relOf (Core.rectCov (toMat W) slack) (fun i => ⟨toVec (l k i), toVec (u k i)⟩))
+    (fun k => Core.relOf (Core.rectPess (toMat W)) (fun i => ⟨toVec (l k i), toVec (u k i)⟩)) T
+    (by
+      intro r hr
+      refine ⟨?_, ?_⟩
+      · intro i hi j hj _ hij
+        exact Core.rectDom_sound_real W slack s (by rw [Core.rect_expandSlack_eq]; exact hs) _ _ _ _ _ _
+          (hvalid r hr i (Or.inl hi)) (hvalid r hr j hj) hij
+      · intro i hi j hj _ hij hsd
+        obtain ⟨n, hn⟩ := Core.rectCov_sound_real W hN slack s hs _ _ _ _ _ _
+          (hvalid r hr i (Or.inl hi)) (hvalid r hr j hj) hij
+        exact absurd (hsd n) (not_le.2 hn))
+  constructor
+  · intro i hi hiso
+    rcases h.isoKept i hi hiso with h1 | h1
+    · rw [show (vogpRun K _ _ _ T).1 = [] from hfinal] at h1; simp at h1
+    · exact h1
+  · intro i hi j hj hne
+    exact h.internal i hi j (Or.inr hj) hne
+
+/-- VOGP instance: the slack is an `m`-vector `s` (`ε·u*`). -/
+theorem vogp_rect_end_to_end_real_vec {m N : ℕ} (W : Fin N → Fin m → ℚ) (hN : 0 < N) (s : Fin m → ℚ)
+    (K : ℕ) (mu : ℕ → Fin m → ℝ) (l u : ℕ → ℕ → Fin m → ℚ) (T : ℕ)
+    (hvalid : ∀ r, r < T → ∀ i,
+      (i ∈ (Core.vogpRectCore (toMat W) (toVec s) K (fun r i => ⟨toVec (l r i), toVec (u r i)⟩) r).1 ∨
+        i ∈ (Core.vogpRectCore (toMat W) (toVec s) K (fun r i => ⟨toVec (l r i), toVec (u r i)⟩) r).2) →
+      ∀ d, (l r i d : ℝ) ≤ mu i d ∧ mu i d ≤ (u r i d : ℝ))
+    (hfinal : (Core.vogpRectCore (toMat W) (toVec s) K (fun r i => ⟨toVec (l r i), toVec (u r i)⟩) T).1 = []) :
+    (∀ i, i < K →
+      (∀ j, j < K → j ≠ i → ¬ ∀ n, 0 ≤ ∑ d, (W n d : ℝ) * (mu j d + (s d : ℝ) - mu i d)) →
+      i ∈ (Core.vogpRectCore (toMat W) (toVec s) K (fun r i => ⟨toVec (l r i), toVec (u r i)⟩) T).2) ∧
+    (∀ i ∈ (Core.vogpRectCore (toMat W) (toVec s) K (fun r i => ⟨toVec (l r i), toVec (u r i)⟩) T).2,
+      ∀ j ∈ (Core.vogpRectCore (toMat W) (toVec s) K (fun r i => ⟨toVec (l r i), toVec (u r i)⟩) T).2,
+        j ≠ i → ¬ ∀ n, 0 ≤ ∑ d, (W n d : ℝ) * (mu j d - mu i d - (s d : ℝ))) :=
+  vogp_rect_end_to_end_real W hN (toVec s) s (Core.expandSlack_self m _ (by simp)) K mu l u T hvalid hfinal
+
+/-- ε-PAL instance: componentwise order, the scalar `ε` as slack; in coordinates: a design `i` such
+that every other design `j` has some objective `d` with `μ_j d + ε < μ_i d` is in `P`, and for
+`i ≠ j ∈ P` some objective has `μ_j d < μ_i d + ε`. -/
+theorem epal_rect_end_to_end_real {m : ℕ} (hm : 0 < m) (eps : ℚ) (K : ℕ) (mu : ℕ → Fin m → ℝ)
+    (l u : ℕ → ℕ → Fin m → ℚ) (T : ℕ)
+    (hvalid : ∀ r, r < T → ∀ i,
+      (i ∈ (Core.vogpRectCore (identMat m) [eps] K (fun r i => ⟨toVec (l r i), toVec (u r i)⟩) r).1 ∨
+        i ∈ (Core.vogpRectCore (identMat m) [eps] K (fun r i => ⟨toVec (l r i), toVec (u r i)⟩) r).2) →
+      ∀ d, (l r i d : ℝ) ≤ mu i d ∧ mu i d ≤ (u r i d : ℝ))
+    (hfinal : (Core.vogpRectCore (identMat m) [eps] K (fun r i => ⟨toVec (l r i), toVec (u r i)⟩) T).1 = []) :
+    (∀ i, i < K → (∀ j, j < K → j ≠ i → ∃ d, mu j d + (eps : ℝ) < mu i d) →
+      i ∈ (Core.vogpRectCore (identMat m) [eps] K (fun r i => ⟨toVec (l r i), toVec (u r i)⟩) T).2) ∧
+    (∀ i ∈ (Core.vogpRectCore (identMat m) [eps] K (fun r i => ⟨toVec (l r i), toVec (u r i)⟩) T).2,
+      ∀ j ∈ (Core.vogpRectCore (identMat m) [eps] K (fun r i => ⟨toVec (l r i), toVec (u r i)⟩) T).2,
+        j ≠ i → ∃ d, mu j d < mu i d + (eps : ℝ)) := by
+  have key : ∀ (x : Fin m → ℝ) (n : Fin m), ∑ d, ((Core.idQ m n d : ℚ) : ℝ) * x d = x n := by
+    intro x n
+    rw [Finset.sum_eq_single n]
+    · simp [Core.idQ]
+    · intro d _ hd
+      simp [Core.idQ, Ne.symm hd]
+    · intro h; exact absurd (Finset.mem_univ n) h
+  rw [Core.identMat_eq_toMat] at hvalid hfinal ⊢
+  obtain ⟨h1, h2⟩ := vogp_rect_end_to_end_real (Core.idQ m) hm [eps] (fun _ => eps)
+    (by rw [← Core.replicate_eq_toVec]; rfl) K mu l u T hvalid hfinal
+  constructor
+  · intro i hi hiso
+    apply h1 i hi
+    intro j hj hne hall
+    obtain ⟨d, hd⟩ := hiso j hj hne
+    have := hall d
+    rw [key] at this
+    linarith
+  · intro i hi j hj hne
+    by_contra hno
+    apply h2 i hi j hj hne
+    intro n
+    rw [key]
+    have : ¬ mu j n < mu i n + (eps : ℝ) := fun h => hno ⟨n, h⟩
+    linarith
+
+private def rMu : ℕ → Fin 2 → ℚ := fun i => if i = 0 then ![0, 0] else if i = 1 then ![2, 2] else ![-1, 4]
+
+/-- non-vacuity of the real-valued statement: the acute-cone scenario above with the true values cast
+to `ℝ`; design 2 (isolated) is in `P`. -/
+example :
+    2 ∈ (Core.vogpRectCore (toMat ![![2, -1], ![-1, 2]]) (toVec ![1/4, 1/4]) 3
+      (fun r i => ⟨toVec (fun d => rMu i d - (if r = 0 then 2 else 1/8)),
+        toVec (fun d => rMu i d + (if r = 0 then 2 else 1/8))⟩) 2).2 := by
+  refine (vogp_rect_end_to_end_real_vec ![![2, -1], ![-1, 2]] (by norm_num) ![1/4, 1/4] 3
+    (fun i d => (rMu i d : ℝ)) (fun r i d => rMu i d - (if r = 0 then 2 else 1/8))
+    (fun r i d => rMu i d + (if r = 0 then 2 else 1/8)) 2 ?_ (by decide +kernel)).1 2 (by norm_num) ?_
+  · intro r _ i _ d
+    push_cast
+    constructor <;> split_ifs <;> norm_num
+  · intro j hj hne hall
+    have hj' : j = 0 ∨ j = 1 := by omega
+    rcases hj' with rfl | rfl
+    · have := hall 1
+      norm_num [Fin.sum_univ_two, rMu] at this
+    · have := hall 1
+      norm_num [Fin.sum_univ_two, rMu] at this
 
 end VOPy.C05
